@@ -17,6 +17,7 @@ from fpy2.number.context.mpb_fixed import MPBFixedContext
 from fpy2.number.context.fixed import FixedContext
 from fpy2.number.context.sm_fixed import SMFixedContext
 from fpy2.number.context.ieee754 import IEEEContext
+from fpy2.number.context.exponential import ExpContext
 
 RMS = ['rne', 'rna', 'rtp', 'rtn', 'rtz', 'raz', 'rto', 'rte']
 RM = {n: getattr(fp.RM, n.upper()) for n in RMS}
@@ -118,6 +119,7 @@ def ctx_tok(d) -> str:
     if f == 'mpbfix': return f"mpbfix {d['nmin']} {rf_tok(d['pos'])} {rf_tok(d['neg'])} {d['rm']} {d['ov']} {k_tok(d['k'])} {b01(d['nz'])} {o()}"
     if f == 'fixed': return f"fixed {b01(d['signed'])} {d['scale']} {d['nbits']} {d['rm']} {d['ov']} {k_tok(d['k'])} {fv_tok(d.get('nv'))} {fv_tok(d.get('iv'))}"
     if f == 'smfixed': return f"smfixed {d['scale']} {d['nbits']} {d['rm']} {d['ov']} {k_tok(d['k'])} {fv_tok(d.get('nv'))} {fv_tok(d.get('iv'))}"
+    if f == 'exp': return f"exp {d['nbits']} {d['eoff']} {d['rm']} {d['ov']} {fv_tok(d.get('iv'))}"
     raise ValueError(f)
 
 def ctx_obj(d, rng=None):
@@ -125,6 +127,7 @@ def ctx_obj(d, rng=None):
     f = d['fam']
     if f == 'real': return fp.REAL
     rm = RM[d['rm']]
+    if f == 'exp': return ExpContext(d['nbits'], d['eoff'], rm, OVS[d['ov']], inf_value=fv_obj(d.get('iv')))
     k = d.get('k', 0)
     sp = dict(nan_value=fv_obj(d.get('nv')), inf_value=fv_obj(d.get('iv')))
     if f == 'mp': return MPFloatContext(d['p'], rm, k, rng=rng, enable_nan=d['en'], enable_inf=d['ei'], **sp)
